@@ -3,6 +3,7 @@ package main
 // C07 — membership synchronisation: agreed lists are valid and identical; honest runs finish.
 
 import (
+	"bytes"
 	"context"
 	"fmt"
 	"math/rand"
@@ -141,8 +142,8 @@ type byzRun struct {
 }
 
 func unitC07byz(e common.Env, p *common.Part) {
-	p.Rule = "Byzantine members are one or more real disc.Member instances under the same identifier with filtered inputs and re-routed outputs, following targeted plans under which honest members can still complete: partition-and-lie (one Byzantine instance per honest group, partition healed at a PRNG instant), shadow coalition (Byzantine instances that hear only each other and a phantom of a silent member), two-faced without partition, outsider and member replaying every captured transmission under their own identity, response flood (several instances of one identifier answer replayed queries with different views after the victim completed), late surplus announcer (one member more than expected joins at a PRNG instant around the moment the views converge) surplus at a decision point (the victim is held at a verif point of Synchronize while the surplus member announces itself) and view rewrite at a decision point (while the victim is held there, a second instance of a session member that only ever heard silent phantoms announces a different view of the same length to it); distinct key = (plan, parameters, seed); non-trivial when an honest member completed or a Byzantine transmission was processed by an honest member"
-	plans := []string{"partition-and-lie", "shadow-coalition", "two-faced", "replay", "response-flood", "shadow-coalition", "partition-and-lie", "late-surplus-announcer", "surplus-at-decision-point", "surplus-at-decision-point", "view-rewrite-at-decision-point", "view-rewrite-at-decision-point"}
+	p.Rule = "Byzantine members are one or more real disc.Member instances under the same identifier with filtered inputs and re-routed outputs, following targeted plans under which honest members can still complete: partition-and-lie (one Byzantine instance per honest group, partition healed at a PRNG instant), shadow coalition (Byzantine instances that hear only each other and a phantom of a silent member), two-faced without partition, outsider and member replaying every captured transmission under their own identity, response flood (several instances of one identifier answer replayed queries with different views after the victim completed), late surplus announcer (one member more than expected joins at a PRNG instant around the moment the views converge) surplus at a decision point (the victim is held at a verif point of Synchronize while the surplus member announces itself) and view rewrite at a decision point (while the victim is held there, a second instance of a session member that only ever heard silent phantoms announces a different view of the same length to it), mirror (a member whose every transmission to X carries, under its real tag, exactly the list X itself announced or queried last) and crafted lists (its lists are replaced by permuted, duplicated, truncated, padded, empty or 30000-entry lists); distinct key = (plan, parameters, seed); non-trivial when an honest member completed or a Byzantine transmission was processed by an honest member"
+	plans := []string{"partition-and-lie", "shadow-coalition", "two-faced", "replay", "response-flood", "shadow-coalition", "partition-and-lie", "late-surplus-announcer", "surplus-at-decision-point", "surplus-at-decision-point", "view-rewrite-at-decision-point", "view-rewrite-at-decision-point", "mirror", "crafted-lists"}
 	n := e.Pick(400, 6000)
 	for i := 0; i < n; i++ {
 		if !e.Mine(i) || p.ViolationCount() >= 3 {
@@ -349,6 +350,92 @@ func runByzPlan(plan string, idx int, rng *rand.Rand) byzRun {
 			net.sent.Delete(ph) // never transmitted towards an honest member
 		}
 		return byzRun{net: net, expected: E, note: fmt.Sprintf("expected=%d session=%v victim=%d held at %s=%v rewriting member=%d phantoms=%v announcements to the victim=%d", E, session, V, point, held, b, phantoms, atomic.LoadInt32(&told))}
+	case "mirror", "crafted-lists":
+		// wire layout of a disc message: type byte, 32-byte tag, 2-byte little-endian identifiers. The Byzantine member is a real
+		// instance (its tags are the real ones); only the list part of its transmissions is replaced. Format self-check: a
+		// transmission split and re-assembled without change must be byte-identical.
+		nh := 2 + rng.Intn(3)
+		E := 2 + rng.Intn(nh) // 2 .. nh+1 (nh+1 = everybody incl. the Byzantine member is needed)
+		ids := pickIDs(rng, nh+1, idx%2 == 1)
+		rng.Shuffle(len(ids), func(i, j int) { ids[i], ids[j] = ids[j], ids[i] })
+		hs, b := ids[:nh], ids[nh]
+		universe := append([]uint16{}, ids...)
+		sort.Slice(universe, func(i, j int) bool { return universe[i] < universe[j] })
+		net := newDnet(universe, rng)
+		var lmu sync.Mutex
+		last := map[uint16][]byte{} // member -> list bytes of its latest transmission
+		net.tap = func(src, dst uint16, data []byte) {
+			if src != b && len(data) >= 33 {
+				lmu.Lock()
+				last[src] = append([]byte{}, data[33:]...)
+				lmu.Unlock()
+			}
+		}
+		selfOK := true
+		var crafted int32
+		bi := net.add(b, "byz-"+plan, false)
+		bi.rewrite = func(dst uint16, data []byte) []byte {
+			if len(data) < 33 {
+				return data
+			}
+			head, list := data[:33], data[33:]
+			if re := append(append([]byte{}, head...), list...); !bytes.Equal(re, data) {
+				selfOK = false
+				return data
+			}
+			var nl []byte
+			if plan == "mirror" {
+				lmu.Lock()
+				nl = append([]byte{}, last[dst]...)
+				lmu.Unlock()
+				if len(nl) == 0 {
+					return data
+				}
+			} else {
+				switch net.rint(8) {
+				case 0: // reversed
+					for i := len(list) - 2; i >= 0; i -= 2 {
+						nl = append(nl, list[i], list[i+1])
+					}
+				case 1: // first entry duplicated
+					nl = append(append([]byte{}, list...), list[:min(2, len(list))]...)
+				case 2: // last entry dropped
+					nl = append([]byte{}, list[:max(0, len(list)-2)]...)
+				case 3: // a non-member appended
+					nl = append(append([]byte{}, list...), 0x39, 0x30)
+				case 4: // empty
+				case 5: // 30000 entries
+					nl = make([]byte, 60000)
+					for i := range nl {
+						nl[i] = byte(i * 7)
+					}
+				case 6: // the destination's own latest list with the destination removed
+					lmu.Lock()
+					for i := 0; i+1 < len(last[dst]); i += 2 {
+						if uint16(last[dst][i])|uint16(last[dst][i+1])<<8 != dst {
+							nl = append(nl, last[dst][i], last[dst][i+1])
+						}
+					}
+					lmu.Unlock()
+				default:
+					return data
+				}
+			}
+			atomic.AddInt32(&crafted, 1)
+			return append(append([]byte{}, head...), nl...)
+		}
+		ctx, cancel := context.WithTimeout(context.Background(), 150*time.Millisecond)
+		defer cancel()
+		for _, h := range hs {
+			net.start(ctx, &wg, net.add(h, "honest", true), topic, E, interval)
+		}
+		net.start(ctx, &wg, bi, topic, E, interval)
+		wg.Wait()
+		r := byzRun{net: net, expected: E, note: fmt.Sprintf("honest=%v byz=%d expected=%d crafted transmissions=%d", hs, b, E, atomic.LoadInt32(&crafted))}
+		if !selfOK {
+			r.note += " [format self-check failed: transmissions left unchanged]"
+		}
+		return r
 	case "shadow-coalition":
 		// universe: honest callers H, Byzantine b (and in odd runs a second one), phantom ph: a configured member that is silent
 		// towards the honest members but whose instance talks to the coalition. expected = coalition size incl. phantom.
